@@ -1,4 +1,5 @@
 import GdcVerif.Driver.Main
 import GdcVerif.Driver.C17
 import GdcVerif.Driver.Rle
-def main : IO Unit := Drv.run [Drv.C17.step?, Drv.Rle.step?]
+import GdcVerif.Driver.Adapters
+def main : IO Unit := Drv.run [Drv.C17.step?, Drv.Rle.step?, Drv.Adapters.step?]
